@@ -747,6 +747,8 @@ def rule_radix_marker(chk, facts):
 def run(chk, facts, info):
     from . import c08_bits
     c08_bits.run(chk, facts)
+    from . import c08_counted
+    c08_counted.run(chk, facts, facts.program('asl'))
     rule_operators(chk, facts)
     rule_signature(chk, facts)
     rule_functions(chk, facts)
